@@ -50,7 +50,7 @@ def cli_execute(argv):
 
 def create(route, path, outfile, piece_length=None, progress=1, announce=None, url_list=None,
            httpseeds=None, private=False, source=None, comment=None, align=False, cli_prefix=(), swallowed=None,
-           magnet=False):
+           magnet=False, pl_spelling=None):
     """Create a metafile through one of the routes; returns Outcome with raw bytes.
     swallowed: None | "announce" | "url_list" | "httpseeds" - the content path is not given on its own but as the
     last value of that list-valued option (the documented recovery in MetaFile.__init__)."""
@@ -97,7 +97,11 @@ def create(route, path, outfile, piece_length=None, progress=1, announce=None, u
         else:
             argv = list(cli_prefix) + ["create", "--meta-version", route[-1], "-o", outfile,
                                         "--prog", str(progress)]
-            if piece_length is not None:
+            if piece_length is not None and pl_spelling == "equals":
+                argv += ["--piece-length=" + str(piece_length)]
+            elif piece_length is not None and pl_spelling == "abbrev":
+                argv += ["--piece-l", str(piece_length)]
+            elif piece_length is not None:
                 argv += ["--piece-length", str(piece_length)]
             if private:
                 argv.append("--private")
